@@ -45,6 +45,24 @@ P = {
              "parser's verdict, suffix and id are compared with the specification's expectation and the reference "
              "evaluation of the suffix term.",
         ref="DESIGN.md 3 C03"),
+    "C04": dict(
+        level="model_checking", engine="chain",
+        technique="TLA+ chain state machine over symbolic hash terms (Chain.tla, Hash.tla) checked by TLC; every complete "
+                  "chain replayed as real signed requests into the commitment package and Parser.GetRevealValue/GetCommitment",
+        text="TLC checks the algebra and the linkage invariant on every chain up to the bound with an ideal hash; each "
+             "chain is then built from real keys of every type, with and without nonce, under both algorithms, and the "
+             "library's reveal values, commitments, derived commitments and per-operation reports are compared with "
+             "the reference evaluation of the specification's terms and with the predecessor the specification names.",
+        ref="DESIGN.md 3 C04"),
+    "C06": dict(
+        level="model_checking", engine="hashcases",
+        technique="TLA+ content-address model with ideal hash (HashCases.tla over Hash.tla) checked by TLC; every case "
+                  "replayed into hashing.* with reference SHA-2 / multihash / JCS evaluation of the terms",
+        text="The specification says when a value validates against an encoded hash (equal JSON value, algorithm from "
+             "the prefix, well-formed string) and which code is reported; TLC enumerates values x relations x "
+             "algorithms x malformed classes x code lists; the harness concretizes each and compares the library's "
+             "hash strings and verdicts with the reference evaluation.",
+        ref="DESIGN.md 3 C06"),
     "C07": dict(
         level="model_checking", engine="parserrules",
         technique="TLA+ decision table ParseAccept(request, relative configuration) (ParserRules.tla over Ops.tla); TLC "
